@@ -80,7 +80,7 @@ macro "track" hops:ident : tactic => `(tactic| (
 variable [PyF F] {names : List String} {ops : Ops F}
 
 omit [PyF F] in
-theorem updateAt_setInds_W {cs0 cs : List (Candle F)} (h : StripEq names cs0 cs) (n : String)
+theorem Writes.updateAt_setInds_W {cs0 cs : List (Candle F)} (h : StripEq names cs0 cs) (n : String)
     (hn : n ‚àà names) (i : Int) (v : Val F) :
     ‚àÄ a, updateAt cs i (fun c => { c with inds := dset n v c.inds }) = .ok a ‚Üí StripEq names cs0 a :=
   fun a e => h.trans (updateAt_stripEq _ (fun c => strip_setInds_mem hn v c) cs a i e)
@@ -142,12 +142,12 @@ theorem Calc.macd_tracks (hops : OpsLocal names ops) (x : Ctx F) (hn : x.name ‚à
   unfold Calc.macd
   have h0 := StripEq.refl names x.cs
   repeat (first
-    | (refine Tracks.bindW (updateAt _ _ _) _ (updateAt_setInds_W (by assumption) _ hn _ _) (fun _ _ => ?_))
+    | (refine Tracks.bindW (updateAt _ _ _) _ (Writes.updateAt_setInds_W (by assumption) _ hn _ _) (fun _ _ => ?_))
     | track_step hops | (dsimp only; track_step hops))
 
 omit [PyF F] in
 /-- a kind that only reads: the candles are returned as they were -/
-theorem tracks_pure (x : Ctx F) (r : PyM (Val F)) :
+theorem Writes.tracks_pure (x : Ctx F) (r : PyM (Val F)) :
     Tracks names x.cs (do let v ‚Üê r; return (v, x.cs)) := by
   intro v cs' e
   cases r with
@@ -164,7 +164,7 @@ theorem calcKind_stripEq (hops : OpsLocal names ops) (ind : Ind F) (x : Ctx F) (
   dsimp only
   split
   all_goals first
-    | exact tracks_pure x _
+    | exact Writes.tracks_pure x _
     | exact Calc.hma_tracks hops x
     | exact Calc.stdev_tracks hops x _ _
     | exact Calc.supertrend_tracks hops x _
